@@ -315,3 +315,141 @@ Lemma source_shape :
   In "respSet.Close"%string proxySeriesDefers /\ In "s.Close"%string loserTreeCloseCalls /\
   In "l.shardMatcher.Close"%string lazyRespSetCloseCalls /\ In "l.shardMatcher.Close"%string eagerRespSetCloseCalls.
 Proof. repeat split; try reflexivity; cbn; tauto. Qed.
+
+(* ---- D. concurrent Get/Put: every interleaving of atomic steps keeps the budget -------------- *)
+
+Lemma pget_raw sizes maxt u o sz p' : pget true sizes maxt (mkP u o) sz = Some p' ->
+  used p' = u + charge sizes sz /\ out p' = o ++ [charge sizes sz] /\ (maxt = 0 \/ u + charge sizes sz <= maxt).
+Proof.
+  unfold pget. cbn [used out].
+  destruct ((0 <? maxt) && (maxt <? u + charge sizes sz)) eqn:E; [discriminate|].
+  intro H; inversion H; subst; clear H. cbn [used out]. repeat split.
+  apply andb_false_iff in E as [E|E]; [apply N.ltb_ge in E; left; lia|apply N.ltb_ge in E; right; exact E].
+Qed.
+
+Lemma total_set : forall outs i o o', nth_error outs i = Some o ->
+  total_out (set_nth i o' outs) + sum_n o = total_out outs + sum_n o'.
+Proof.
+  unfold total_out. induction outs as [|x outs IH]; intros [|i] o o' H; cbn in H; try discriminate.
+  - inversion H; subst. cbn [set_nth map sum_n]. lia.
+  - cbn [set_nth map sum_n]. specialize (IH i o o' H). lia.
+Qed.
+
+Lemma total_ge : forall outs i o, nth_error outs i = Some o -> sum_n o <= total_out outs.
+Proof.
+  unfold total_out. induction outs as [|x outs IH]; intros [|i] o H; cbn in H; try discriminate.
+  - inversion H; subst. cbn [map sum_n]. lia.
+  - cbn [map sum_n]. specialize (IH i o H). lia.
+Qed.
+
+Lemma sum_nth_le : forall l k c, nth_error l k = Some c -> c <= sum_n l.
+Proof. intros l k c H. rewrite (sum_remove_nth l k c H). lia. Qed.
+
+Definition tinv (maxt : N) (st : tstate) : Prop :=
+  t_used st = total_out (t_outs st) /\ (maxt = 0 \/ t_used st <= maxt).
+
+Lemma tstep_inv sizes maxt st i : tinv maxt st -> tinv maxt (fst (tstep true sizes maxt st i)).
+Proof.
+  intros [I1 I2]. unfold tstep.
+  destruct (nth_error (t_progs st) i) as [[|o rest]|] eqn:Ep; try (split; assumption).
+  destruct (nth_error (t_outs st) i) as [outs|] eqn:Eo; try (split; assumption).
+  destruct o as [sz|k].
+  - destruct (pget true sizes maxt (mkP (t_used st) outs) sz) as [p'|] eqn:G; cbn [fst]; [|split; assumption].
+    destruct (pget_raw _ _ _ _ _ _ G) as (U & O & B). unfold tinv. cbn [t_used t_outs]. rewrite U, O. split.
+    + pose proof (total_set (t_outs st) i outs (outs ++ [charge sizes sz]) Eo) as T. rewrite sum_app in T. cbn [sum_n] in T. lia.
+    + exact B.
+  - cbn [fst]. unfold pput. cbn [out used]. destruct (nth_error outs k) as [c|] eqn:Ek.
+    + unfold tinv. cbn [t_used t_outs used out].
+      pose proof (total_set (t_outs st) i outs (remove_nth k outs) Eo) as T.
+      pose proof (sum_remove_nth _ _ _ Ek) as S. pose proof (total_ge _ _ _ Eo) as Gq.
+      destruct (t_used st <=? c) eqn:L; [apply N.leb_le in L|apply N.leb_gt in L]; split; lia.
+    + unfold tinv. cbn [t_used t_outs used out]. rewrite (set_nth_same _ _ _ Eo). split; assumption.
+Qed.
+
+Lemma tfinal_inv sizes maxt : forall sched st, tinv maxt st -> tinv maxt (tfinal true sizes maxt st sched).
+Proof.
+  induction sched as [|i r IH]; intros st I; cbn [tfinal]; [exact I|]. apply IH. apply tstep_inv. exact I.
+Qed.
+
+Lemma tinit_inv maxt threads : tinv maxt (tinit threads).
+Proof.
+  split; cbn [tinit t_used t_outs].
+  - unfold total_out. induction threads; cbn; auto.
+  - destruct (N.eq_dec maxt 0); [left; assumption|right; lia].
+Qed.
+
+(* for every set of threads and EVERY interleaving of their atomic Get/Put steps: UsedBytes equals
+   the capacities checked out by all threads together and never exceeds maxTotal *)
+Lemma concurrent_budget sizes maxt threads sched :
+  let st := tfinal true sizes maxt (tinit threads) sched in
+  t_used st = total_out (t_outs st) /\ (maxt <> 0 -> t_used st <= maxt).
+Proof.
+  cbn zeta. destruct (tfinal_inv sizes maxt sched (tinit threads) (tinit_inv maxt threads)) as [I1 I2].
+  split; [exact I1|]. intro H. destruct I2; [contradiction|assumption].
+Qed.
+
+Lemma budget_bool maxt u : (maxt = 0 \/ u <= maxt) -> (maxt =? 0) || (u <=? maxt) = true.
+Proof. intros [->|H]; [reflexivity|]. apply orb_true_iff. right. apply N.leb_le. exact H. Qed.
+
+Lemma sched_pred_ok sizes maxt : forall sched st, tinv maxt st ->
+  sched_pred maxt (t_outs st) (t_progs st) sched (trun true sizes maxt st sched) = true.
+Proof.
+  induction sched as [|i r IH]; intros st I; cbn [trun sched_pred]; [reflexivity|].
+  pose proof (tstep_inv sizes maxt st i I) as I'. revert I'. unfold tstep.
+  destruct (nth_error (t_progs st) i) as [[|o rest]|] eqn:Ep;
+    try (intro I'; cbn [fst sched_pred]; rewrite ?Ep; destruct I as [J1 J2];
+         rewrite (budget_bool _ _ J2), (proj2 (N.eqb_eq _ _) J1); cbn [andb]; apply (IH st (conj J1 J2))).
+  destruct (nth_error (t_outs st) i) as [outs|] eqn:Eo.
+  2:{ intro I'. cbn [fst sched_pred]. rewrite ?Ep, ?Eo. destruct I as [J1 J2].
+      rewrite (budget_bool _ _ J2), (proj2 (N.eqb_eq _ _) J1). cbn [andb]. apply (IH st (conj J1 J2)). }
+  destruct o as [sz|k].
+  - destruct (pget true sizes maxt (mkP (t_used st) outs) sz) as [p'|] eqn:G; cbn [fst]; intro I'.
+    + cbn [sched_pred]. rewrite ?Ep, ?Eo. destruct (pget_raw _ _ _ _ _ _ G) as (U & O & _).
+      destruct I' as [J1 J2]. cbn [t_used t_outs] in J1, J2. rewrite <- O.
+      rewrite (budget_bool _ _ J2), (proj2 (N.eqb_eq _ _) J1). cbn [andb].
+      apply (IH (mkT (used p') (set_nth i (out p') (t_outs st)) (set_nth i rest (t_progs st))) (conj J1 J2)).
+    + cbn [sched_pred]. rewrite ?Ep, ?Eo. rewrite (set_nth_same _ _ _ Eo).
+      destruct I' as [J1 J2]. cbn [t_used t_outs] in J1, J2.
+      rewrite (budget_bool _ _ J2), (proj2 (N.eqb_eq _ _) J1). cbn [andb].
+      apply (IH (mkT (t_used st) (t_outs st) (set_nth i rest (t_progs st))) (conj J1 J2)).
+  - cbn [fst]. intro I'. cbn [sched_pred]. rewrite ?Ep, ?Eo.
+    assert (Ho : out (pput (mkP (t_used st) outs) k) = remove_nth k outs).
+    { unfold pput. cbn [out]. destruct (nth_error outs k) eqn:Ek; [reflexivity|]. cbn [out]. symmetry. apply remove_nth_none. exact Ek. }
+    rewrite <- Ho. destruct I' as [J1 J2]. cbn [t_used t_outs] in J1, J2.
+    rewrite (budget_bool _ _ J2), (proj2 (N.eqb_eq _ _) J1). cbn [andb].
+    apply (IH (mkT (used (pput (mkP (t_used st) outs) k)) (set_nth i (out (pput (mkP (t_used st) outs) k)) (t_outs st))
+                   (set_nth i rest (t_progs st))) (conj J1 J2)).
+Qed.
+
+Lemma sched_case_pred sizes maxt threads sched :
+  pred_ok (CSched sizes maxt threads sched (trun true sizes maxt (tinit threads) sched)) = true.
+Proof. cbn [pred_ok]. apply (sched_pred_ok sizes maxt sched (tinit threads) (tinit_inv maxt threads)). Qed.
+
+(* a Get cut into "test the budget" and, later, "account": two Get(80) on buckets 10/20/40/80 with
+   maxTotal 100 both pass the test of the same state (the test is pget's), and both charges land *)
+Lemma split_get_refuted :
+  pget true [10; 20; 40; 80] 100 (mkP 0 []) 80 <> None /\ (* thread A: test passes on usedTotal = 0 *)
+  pget true [10; 20; 40; 80] 100 (mkP 0 []) 80 <> None /\ (* thread B: test passes on the same usedTotal = 0 *)
+  0 + charge [10; 20; 40; 80] 80 + charge [10; 20; 40; 80] 80 = 160 /\ 100 < 160 /\
+  (* whereas atomically the second Get is refused *)
+  pget true [10; 20; 40; 80] 100 (mkP 80 [80]) 80 = None.
+Proof. repeat split; try discriminate; reflexivity. Qed.
+
+Lemma concurrent_nonvacuous :
+  trun true [10; 20; 40; 80] 100 (tinit [[TGet 80; TPut 0%nat]; [TGet 80; TGet 20]]) [0; 1; 1; 0; 1]%nat
+    = [(true, 80, 80); (false, 0, 80); (true, 20, 100); (true, 0, 20); (true, 0, 20)].
+Proof. reflexivity. Qed.
+
+(* tie T: Get takes the pool's lock first and releases it by defer; the budget tests and the
+   accounting are written inline in between (no other lock operation in Get) *)
+Lemma get_critical_section :
+  poolGetEvents =
+    [("call", "p.mtx.Lock"); ("defer", "p.mtx.Unlock"); ("for", "range"); ("if", "sz > bktSize"); ("endif", "");
+     ("call", "uint64"); ("if", "p.maxTotal > 0 && p.usedTotal+uint64(bktSize) > p.maxTotal");
+     ("return", "nil, ErrPoolExhausted"); ("endif", ""); ("call", "p.buckets.Get"); ("if", "!ok"); ("call", "p.new");
+     ("endif", ""); ("call", "cap"); ("call", "uint64"); ("return", "b, nil"); ("endfor", ""); ("call", "uint64");
+     ("if", "p.maxTotal > 0 && p.usedTotal+uint64(sz) > p.maxTotal"); ("return", "nil, ErrPoolExhausted"); ("endif", "");
+     ("call", "uint64"); ("call", "p.new"); ("return", "p.new(sz), nil")]%string /\
+  (exists pre, poolPutEvents = pre ++ [("call", "p.mtx.Lock"); ("defer", "p.mtx.Unlock"); ("call", "uint64");
+     ("if", "uint64(sz) >= p.usedTotal"); ("else", ""); ("call", "uint64"); ("endif", "")]%string).
+Proof. split; [reflexivity|]. eexists (firstn 9 poolPutEvents). reflexivity. Qed.
